@@ -31,6 +31,10 @@ class Registration(Stream):
         for i in range(n_cfg):
             r = rng.fork("cfg%d" % i)
             cfg = proc.default_cfg(r if i else None, counts=[2, 0, 0, 0, 0])
+            # the operator's algorithm priority lists (any AMF choice): the UE is told to use the first one it advertises
+            cfg["int_priority"], cfg["enc_priority"] = [[2, 1, 0], [1, 2, 0], [0, 2, 1], [3, 1, 2]][i % 4][:], [[0, 1, 2], [2, 1, 0], [1, 0, 2], [3, 2, 0]][i % 4][:]
+            if i % 4 == 2:
+                cfg["int_priority"] = [2, 0, 1]       # NIA0 first would select null integrity for a UE that advertised it
             if i % 8 in (2, 5):  # both ends of the gNB ID size range (22..32 bits)
                 bl = 22 if i % 8 == 2 else 32
                 cfg.update(gnb_bitlength=bl, gnb_id=bytes(r.below(128) for _ in range((bl + 7) // 8)))
